@@ -28,11 +28,8 @@ def gen_tables(rng):
         ncols = rng.randrange(1, 6)
         t = sc.gen_table(rng, name, ncols=ncols, nrows=rng.choice([0, 0, 1, 2, 3, 5, 9, 14]),
                          pnull=rng.choice([0.0, 0.3, 0.6, 1.0]))
-        if rng.random() < 0.15 and ncols >= 2:
-            # duplicated column name (same type, or the INSERT is refused)
-            t["cols"][1] = dict(t["cols"][0])
-            for r in t["rows"]:
-                r[1] = r[0]
+        # (tables with one column name used twice existed here until /repo e322443: CREATE TABLE now
+        # refuses them; duplicated names still arise in join results and select lists)
         tables.append(t)
     return tables
 
